@@ -1,7 +1,7 @@
 package main
 
 // Op `aw` (stream ambient): the policy keys a workload gets from the REAL ambient index - the whole krt
-// pipeline on a fake kube client (PeerAuthentication CRs + one Pod / WorkloadEntry / ServiceEntry with an inline
+// pipeline on a fake kube client (PeerAuthentication CRs + Pods / WorkloadEntries / ServiceEntries with an inline
 // endpoint), i.e. the three production callers of buildWorkloadPolicies (workloads.go podWorkloadBuilder,
 // workloadEntryWorkloadBuilder, serviceEntryWorkloadBuilder) with the labels THEY pass.
 //
@@ -9,8 +9,15 @@ package main
 //
 // labels: the workload's labels (pod labels / WorkloadEntry spec.labels / the inline endpoint's labels);
 // metaLabels: the metadata labels of the WorkloadEntry / ServiceEntry resource ("-": none; ignored for pods).
+//
+// The index LIVES for the rest of the case: the same `aw` line names the same workload object, and every later
+// pa / pu / pd of the case goes through the kube client (create / update / delete of the CR), so that a second read
+// of the workload shows what the krt dependencies (Fetch in the workload builders and in PeerAuthDerivedPolicies)
+// re-evaluated.
 
 import (
+	"context"
+	"fmt"
 	"sort"
 	"strings"
 	"time"
@@ -22,20 +29,37 @@ import (
 	networkingapi "istio.io/api/networking/v1alpha3"
 	networkingclient "istio.io/client-go/pkg/apis/networking/v1"
 	"istio.io/istio/pilot/pkg/features"
+	"istio.io/istio/pilot/pkg/model"
 	xdsfake "istio.io/istio/pilot/test/xds"
 	"istio.io/istio/pkg/config/mesh"
 	"istio.io/istio/pkg/util/sets"
 	"verifharness/internal/quiet"
 )
 
-func (s *sut) ambientWorkload(kind, ns string, labels, meta [][2]string) string {
+type ambWorld struct {
+	f       *failer
+	fs      *xdsfake.FakeDiscoveryServer
+	idx     model.AmbientIndexes
+	ips     map[string]string // aw line -> address of its workload
+	edited  bool
+	restore func()
+}
+
+func (w *ambWorld) close() {
+	w.f.done()
+	w.restore()
+}
+
+func (s *sut) ambWorld() *ambWorld {
+	if s.liveAmb != nil {
+		return s.liveAmb
+	}
 	f := &failer{}
-	defer f.done()
+	oldAmbient := features.EnableAmbient
 	features.EnableAmbient = true
-	const ip = "10.7.7.7"
 	var objs []runtime.Object
 	seenNs := map[string]bool{}
-	for _, n := range []string{s.root, ns, "ns1", "ns2", "ns3"} {
+	for _, n := range []string{s.root, "ns1", "ns2", "ns3", "istio-system", "zz-root"} {
 		if !seenNs[n] {
 			objs = append(objs, &corev1.Namespace{ObjectMeta: metav1.ObjectMeta{Name: n}})
 		}
@@ -44,58 +68,124 @@ func (s *sut) ambientWorkload(kind, ns string, labels, meta [][2]string) string 
 	for _, p := range s.pas {
 		objs = append(objs, crOf(p))
 	}
-	lm := labelsMap(labels)
-	switch kind {
-	case "pod":
-		objs = append(objs, &corev1.Pod{
-			ObjectMeta: metav1.ObjectMeta{Name: "w", Namespace: ns, Labels: lm},
-			Spec:       corev1.PodSpec{ServiceAccountName: "sa", NodeName: "node1"},
-			Status: corev1.PodStatus{
-				PodIP: ip, PodIPs: []corev1.PodIP{{IP: ip}}, Phase: corev1.PodRunning,
-				Conditions: []corev1.PodCondition{{Type: corev1.PodReady, Status: corev1.ConditionTrue}},
-			},
-		})
-	case "we":
-		objs = append(objs, &networkingclient.WorkloadEntry{
-			ObjectMeta: metav1.ObjectMeta{Name: "w", Namespace: ns, Labels: labelsMap(meta)},
-			Spec:       networkingapi.WorkloadEntry{Address: ip, Labels: lm},
-		})
-	case "se":
-		objs = append(objs, &networkingclient.ServiceEntry{
-			ObjectMeta: metav1.ObjectMeta{Name: "w", Namespace: ns, Labels: labelsMap(meta)},
-			Spec: networkingapi.ServiceEntry{
-				Hosts:      []string{"w." + ns + ".example.com"},
-				Ports:      []*networkingapi.ServicePort{{Number: 80, Name: "http", Protocol: "HTTP"}},
-				Location:   networkingapi.ServiceEntry_MESH_INTERNAL,
-				Resolution: networkingapi.ServiceEntry_STATIC,
-				Endpoints:  []*networkingapi.WorkloadEntry{{Address: ip, Labels: lm}},
-			},
-		})
-	default:
-		return "bad-op"
-	}
 	mc := mesh.DefaultMeshConfig()
 	mc.RootNamespace = s.root
 	fs := xdsfake.NewFakeDiscoveryServer(f, xdsfake.FakeOptions{KubernetesObjects: objs, MeshConfig: mc})
 	quiet.Silence()
-	idx := fs.Discovery.Env.AmbientIndexes
-	// the informers and the krt pipeline are asynchronous: wait until the workload is there and its policy list
-	// has not changed for a while
-	last, stable := "?", 0
-	deadline := time.Now().Add(8 * time.Second)
-	for time.Now().Before(deadline) {
-		cur := "absent"
-		if info, _ := idx.AddressInformation(sets.New("/" + ip)); len(info) > 0 && info[0].GetWorkload() != nil {
-			keys := append([]string(nil), info[0].GetWorkload().GetAuthorizationPolicies()...)
-			sort.Strings(keys)
-			cur = "K=-"
-			if len(keys) > 0 {
-				cur = "K=" + strings.Join(keys, ",")
+	s.liveAmb = &ambWorld{f: f, fs: fs, idx: fs.Discovery.Env.AmbientIndexes, ips: map[string]string{},
+		restore: func() { features.EnableAmbient = oldAmbient }}
+	return s.liveAmb
+}
+
+// edit: one PeerAuthentication change through the kube client of the live index.
+func (w *ambWorld) edit(op string, p paIn) {
+	c := w.fs.KubeClient().Istio().SecurityV1().PeerAuthentications(p.ns)
+	var err error
+	switch op {
+	case "create":
+		_, err = c.Create(context.Background(), crOf(p), metav1.CreateOptions{})
+	case "update":
+		_, err = c.Update(context.Background(), crOf(p), metav1.UpdateOptions{})
+	case "delete":
+		err = c.Delete(context.Background(), p.name, metav1.DeleteOptions{})
+	}
+	if err != nil {
+		panic("ambient edit " + op + ": " + err.Error())
+	}
+	w.edited = true
+}
+
+func (s *sut) ambientWorkload(kind, ns string, labels, meta [][2]string) string {
+	if kind != "pod" && kind != "we" && kind != "se" {
+		return "bad-op"
+	}
+	w := s.ambWorld()
+	key := strings.Join([]string{kind, ns, encLabels(labels), encLabels(meta)}, " ")
+	ip, exists := w.ips[key]
+	if !exists {
+		n := len(w.ips) + 1
+		ip = fmt.Sprintf("10.7.7.%d", n)
+		name := fmt.Sprintf("w%d", n)
+		w.ips[key] = ip
+		lm := labelsMap(labels)
+		kc := w.fs.KubeClient()
+		var err error
+		switch kind {
+		case "pod":
+			_, err = kc.Kube().CoreV1().Pods(ns).Create(context.Background(), &corev1.Pod{
+				ObjectMeta: metav1.ObjectMeta{Name: name, Namespace: ns, Labels: lm},
+				Spec:       corev1.PodSpec{ServiceAccountName: "sa", NodeName: "node1"},
+				Status: corev1.PodStatus{
+					PodIP: ip, PodIPs: []corev1.PodIP{{IP: ip}}, Phase: corev1.PodRunning,
+					Conditions: []corev1.PodCondition{{Type: corev1.PodReady, Status: corev1.ConditionTrue}},
+				},
+			}, metav1.CreateOptions{})
+		case "we":
+			_, err = kc.Istio().NetworkingV1().WorkloadEntries(ns).Create(context.Background(), &networkingclient.WorkloadEntry{
+				ObjectMeta: metav1.ObjectMeta{Name: name, Namespace: ns, Labels: labelsMap(meta)},
+				Spec:       networkingapi.WorkloadEntry{Address: ip, Labels: lm},
+			}, metav1.CreateOptions{})
+		case "se":
+			_, err = kc.Istio().NetworkingV1().ServiceEntries(ns).Create(context.Background(), &networkingclient.ServiceEntry{
+				ObjectMeta: metav1.ObjectMeta{Name: name, Namespace: ns, Labels: labelsMap(meta)},
+				Spec: networkingapi.ServiceEntry{
+					Hosts:      []string{name + "." + ns + ".example.com"},
+					Ports:      []*networkingapi.ServicePort{{Number: 80, Name: "http", Protocol: "HTTP"}},
+					Location:   networkingapi.ServiceEntry_MESH_INTERNAL,
+					Resolution: networkingapi.ServiceEntry_STATIC,
+					Endpoints:  []*networkingapi.WorkloadEntry{{Address: ip, Labels: lm}},
+				},
+			}, metav1.CreateOptions{})
+		}
+		if err != nil {
+			panic("aw create: " + err.Error())
+		}
+	}
+	// the workload's own labels, for the WAITING strategy only (see below)
+	own := labels
+	if kind == "we" {
+		own = mergedLabels(labels, meta)
+	}
+	// The informers and the krt pipeline are asynchronous and offer no barrier. Wait until the workload is there and its
+	// policy list has not changed for a while; after an edit additionally (for at most 3 s) until the list enforces what
+	// the specification says - on a correct index that is the final state, a stale index runs into the limit and its
+	// stale answer is what gets printed and judged. The printed value is always the index's own.
+	read := func() (string, []string) {
+		info, _ := w.idx.AddressInformation(sets.New("/" + ip))
+		if len(info) == 0 || info[0].GetWorkload() == nil {
+			return "absent", nil
+		}
+		keys := append([]string(nil), info[0].GetWorkload().GetAuthorizationPolicies()...)
+		sort.Strings(keys)
+		if len(keys) == 0 {
+			return "K=-", keys
+		}
+		return "K=" + strings.Join(keys, ","), keys
+	}
+	consistent := func(keys []string) bool {
+		v := s.ambientView()
+		r := ambientResult{keys: keys}
+		s.evalKeys(v, &r)
+		if r.dangling {
+			return false
+		}
+		for _, p := range queryPort {
+			got, ok := r.denied(false, p)
+			if !ok || got != (effectiveMode(s.pas, s.root, ns, own, p) == "STRICT") {
+				return false
 			}
 		}
+		return true
+	}
+	last, stable := "?", 0
+	start := time.Now()
+	deadline := start.Add(8 * time.Second)
+	specLimit := start.Add(3 * time.Second)
+	for time.Now().Before(deadline) {
+		cur, keys := read()
 		if cur == last && cur != "absent" {
 			stable++
-			if stable >= 15 {
+			if stable >= 15 && (!w.edited || time.Now().After(specLimit) || consistent(keys)) {
 				return cur
 			}
 		} else {
